@@ -12,6 +12,7 @@ package gen
 
 import (
 	"fmt"
+	"os"
 	"strings"
 	"testing"
 
@@ -67,9 +68,16 @@ func verifRunPipeline(doc string) (outcome string) {
 
 func TestVerifStandinNullSubschema(t *testing.T) {
 	n, ok, errs, bad := 0, 0, 0, 0
+	fills := verifNullFills
+	if os.Getenv("VERIF_TIER") == "thorough" {
+		// depth 2: every shape with a null slot is itself a fill
+		for _, sh := range verifNullShapes {
+			fills = append(fills[:len(fills):len(fills)], strings.ReplaceAll(sh, "§", "null"))
+		}
+	}
 	for di, d := range verifNullDocs {
 		for si, sh := range verifNullShapes {
-			for fi, f := range verifNullFills {
+			for fi, f := range fills {
 				schema := strings.ReplaceAll(sh, "§", f)
 				doc := strings.ReplaceAll(d, "§", schema)
 				n++
